@@ -27,8 +27,10 @@ func rulesC09(c *Ctx) {
 	ruleClientsConsistent(c)
 	ruleClientParamsFields(c)
 	ruleRunElectionTable(c)
+	ruleStoreClientElectionID(c)
 	ruleDoModifyPrecondition(c)
 	ruleSessionFootprint(c)
+	ruleElectionWriters(c) // a session leaving (or any handler but runElection) never alters the election state
 }
 
 // sendEvents classifies sends on channel-typed variables of the function / closure.
@@ -331,7 +333,8 @@ func ruleUpdateParamsTable(c *Ctx) {
 			if as, ok := m.(*ast.AssignStmt); ok && as.Tok == token.ASSIGN {
 				for _, l := range as.Lhs {
 					if se, ok := ast.Unparen(l).(*ast.SelectorExpr); ok {
-						if _, isIdx := ast.Unparen(se.X).(*ast.IndexExpr); isIdx {
+						// the session's state: s.cs[id] itself or a local holding it
+						if canonTerm(fi, se.X) == p {
 							out = append(out, Event{Kind: "store session." + se.Sel.Name, Node: as})
 						}
 					}
